@@ -355,6 +355,48 @@ def run(ctx):
             ctx.sample({"run": lines[0][:120], "stdout_bytes": len(real[0]), "head": real[0][:60].hex()})
             ctx.sample({"run": lines[-1][:120], "stdout_bytes": len(real[-1])})
 
+    # ------------------------------------------------------------------ BERT mode at process level (runs until interrupted: a prefix is read)
+    if binary and model:
+        nfr = 12 if thorough else 6
+        def head(args, nbytes):
+            p = subprocess.Popen([str(binary), "--src=BERT", *args], stdin=subprocess.DEVNULL, stdout=subprocess.PIPE, stderr=subprocess.DEVNULL)
+            try:
+                buf = b""
+                while len(buf) < nbytes:
+                    chunk = p.stdout.read(nbytes - len(buf))
+                    if not chunk:
+                        break
+                    buf += chunk
+                return buf
+            finally:
+                p.kill()
+                p.wait()
+        bs = head(["-B", "-b"], 48 * (2 + nfr))
+        ctx.case("bert-process-bitstream", nontrivial=len(bs) == 48 * (2 + nfr))
+        if len(bs) != 48 * (2 + nfr):
+            ctx.tie_broken("m17-mod-bert-run", f"m17-mod -B -b produced {len(bs)} bytes, wanted {48 * (2 + nfr)}")
+        else:
+            if bs[:96] != bytes([0x77]) * 96 or any(bs[96 + 48 * k:98 + 48 * k] != bytes([0xDF, 0x55]) for k in range(nfr)):
+                ctx.violation("mod-bert-bitstream-layout", "m17-mod -B -b does not start with the preamble(s) followed by BERT frames (sync DF55)",
+                              {"head": bs[:160].hex()})
+            for inv, flag in ((0, []), (1, ["-i"])):
+                bb = head(["-B", *flag], 2 * 1920 * (2 + nfr))
+                rs = decode16(bb)
+                rc, o = ctx.run_exe(model, ["spec"], input_text=f"shape {inv} {bs.hex()}\n", timeout=600)
+                ss = decode16(bytes.fromhex(o.strip().split("=", 1)[-1]))
+                ctx.case(f"bert-process-baseband-{inv}", nontrivial=len(rs) == 1920 * (2 + nfr))
+                ctx.count("run:baseband:bert" + ("-inverted" if inv else ""))
+                n = min(len(rs), len(ss))
+                j = next((k for k in range(n) if abs(ss[k] - rs[k]) > 1), None)
+                if len(rs) != 1920 * (2 + nfr):
+                    ctx.tie_broken("m17-mod-bert-run", f"m17-mod -B {' '.join(flag)} produced {len(rs)} samples, wanted {1920 * (2 + nfr)}")
+                elif j is not None:
+                    ctx.violation("mod-baseband-not-continuous",
+                                  "BERT mode: baseband differs from one continuous run of the RRC filter (scale 7168) over the symbols of the -b output",
+                                  {"mode": "-B" + (" -i" if inv else ""), "first_bad_sample": j, "symbol_index": j // 10, "block_index": j // 1920,
+                                   "real": list(rs[j:j + 12]), "ideal": list(ss[j:j + 12]), "bitstream_prefix": bs[:144].hex()})
+                    break
+
     # ------------------------------------------------------------------ transmit()'s audio buffer before the first full frame
     if binary and exe and model:
         audio = gen_audio(r, r.range(2, 300), "noise")
